@@ -245,7 +245,9 @@ def gen_case(r, idx, profile):
         if qos:
             mid = r.choice([g.gmid + 1, g.gmid + 1, g.mid, max(g.mid, 1)]) if profile == 'collide' else g.gmid + 1
             g.gmid += 1
-        p = publish(tit, tid, mid, payload(), qos, False, retain)
+        # (the first copy of a QoS 1/2 message may get lost: then the only one the client sees carries DUP - and a
+        # broker's own retransmission is forwarded with DUP as well)
+        p = publish(tit, tid, mid, payload(), qos, bool(qos) and r.random() < 0.25, retain)
         g.sn(p)
         if qos == 2:
             w = r.random()
